@@ -27,6 +27,7 @@ type Cfg struct {
 	Interval int    // Throttling, ticks
 	K        int    // Throttling: number of input elements 0..K-1
 	ProdGap  int    // Throttling: producer sleeps this long before every send
+	NoErr    bool   // generators: nobody reads the error channel
 }
 
 func Bit(m, i int) bool { return m&(1<<i) != 0 }
@@ -91,7 +92,9 @@ func Scenario(c Cfg) {
 		env.WatchClosed("got", out)
 		env.WatchClosed("err", exx)
 		genConsumer(out)
-		errReader(exx)
+		if !c.NoErr {
+			errReader(exx)
+		}
 	case "unfold":
 		step := func(x int) int {
 			env.Log("call", x)
@@ -107,7 +110,9 @@ func Scenario(c Cfg) {
 		env.WatchClosed("got", out)
 		env.WatchClosed("err", exx)
 		genConsumer(out)
-		errReader(exx)
+		if !c.NoErr {
+			errReader(exx)
+		}
 	case "throttle":
 		in := make(chan int, c.Cap)
 		go func() {
